@@ -110,6 +110,41 @@ def native_search():
     n += 1
     if r:
         return {"scenario": "connect; undecodable payload then a good one; two reads; disconnect", "observed": r}, n
+
+    async def burst(k=600):
+        # a consumer that is slow: k broker messages arrive before the first read; each must be read exactly once, in order
+        t = mq.MQTTClient("h", in_prefix="in")
+        fake = FakeClient([Msg(f"in/{i % 200};1;1;0;2".replace(";", "/"), str(i).encode()) for i in range(k)])
+        mq.AsyncioClient = lambda *a, **k_: fake
+        await t.connect()
+        for _ in range(5):
+            await asyncio.sleep(0)
+        await asyncio.sleep(0.05)
+        got = []
+        for i in range(k):
+            try:
+                got.append(await asyncio.wait_for(t.read(), 0.5))
+            except TransportError as e:
+                got.append(f"transport-error:{type(e).__name__}")
+            except asyncio.TimeoutError:
+                got.append("SILENT")
+                break
+        try:
+            await t.disconnect()
+        except BaseException as e:  # noqa: BLE001
+            return f"disconnect after a burst raised {type(e).__name__}"
+        want = [f"{i % 200};1;1;0;2;{i}" for i in range(k)]
+        if got != want:
+            j = next((j for j, (a, b) in enumerate(zip(got + ["<end>"], want + ["<end>"])) if a != b), len(got))
+            return f"burst of {k} messages before the first read: read #{j} is {got[j] if j < len(got) else '<nothing>'!r}, expected {want[j] if j < len(want) else '<nothing>'!r}"
+        return None
+    try:
+        r = asyncio.run(burst())
+    finally:
+        mq.AsyncioClient = orig
+    n += 1
+    if r:
+        return {"scenario": "connect; 600 broker messages before the first read; read them all; disconnect", "observed": r}, n
     return None, n
 
 
@@ -133,6 +168,10 @@ def rebuild_inlined(world, failing_helpers):
     """Stale helper clauses: re-prove with the bodies of the functions whose helper clauses failed inlined into their callers."""
     bad = {h["unit"].split("[")[0] for h in failing_helpers}
     units = build(world)
+    broken_invariants = {h["name"] for h in failing_helpers if h["name"].startswith("wf/")}
     for u in units:
         u.no_contract_for = tuple(set(u.no_contract_for) | bad)
+        if broken_invariants:
+            # a class invariant the constructor no longer establishes may not be assumed by the methods any more
+            u.contract.requires = [r for r in u.contract.requires if getattr(r, "id", None) not in broken_invariants]
     return units
